@@ -1,6 +1,7 @@
 package harness
 
 import (
+	"strings"
 	"fmt"
 	"time"
 
@@ -176,8 +177,18 @@ func c01Scenario(c *Ctx) {
 					continue
 				}
 				if ierr != nil {
-					why := classifyRejection(takeErrors(nd.Tag))
-					c.Fail("C01/rejected/"+why, "honest validator %s rejected block %d of the honest miner (%v, reason: %s); txs: %v", nd.Name, blk.Height(), ierr, why, txsSummary(blk.Txs))
+					lines := takeErrors(nd.Tag)
+					why := classifyRejection(lines)
+					detail := ""
+					for _, l := range lines {
+						if strings.HasPrefix(l, "Local logs:") {
+							detail += "\nvalidator computed: " + l + "\nblock carries: " + fmt.Sprintf("%s", blk.ChangeLogs)
+						}
+						if strings.HasPrefix(l, "nodes in body:") {
+							detail += "\n" + l
+						}
+					}
+					c.Fail("C01/rejected/"+why, "honest validator %s rejected block %d of the honest miner (%v, reason: %s); txs: %v%s", nd.Name, blk.Height(), ierr, why, txsSummary(blk.Txs), detail)
 					return false
 				}
 				var dump StateDump
@@ -189,9 +200,9 @@ func c01Scenario(c *Ctx) {
 				// confirmations from the other deputies so that stable follows
 				if c.Draw("gen", 3) != 0 {
 					var sigs []types.SignData
-					for k := range net.Deputies {
-						if k != r.Deputy {
-							sigs = append(sigs, net.Confirm(k, blk.Hash()))
+					for _, d := range r.Term {
+						if d.Miner.Addr != r.Miner.Miner.Addr {
+							sigs = append(sigs, net.ConfirmBy(d, blk.Hash()))
 						}
 					}
 					if len(sigs) > 0 {
